@@ -1,8 +1,8 @@
 SPECIFICATION SSpec
 CONSTANTS
   Validators = {1, 2, 3, 4}
-  SlotSpace = {4, 5, 6}
-  Nows = {3, 4, 5, 6}
+  SlotSpace = {8, 9, 10}
+  Nows = {7, 8, 9, 10, 16}
   Committees = {0, 1}
   Sizes = {1, 4, 8, 12, 40}
   Targets = {1, 2, 16}
@@ -10,7 +10,12 @@ CONSTANTS
   HMod = 840
   MaxDuties = 5
   MaxSubs = 2
-  ScenLen = 10
+  SPE = 4
+  Ep = 2
+  MaxRefresh = 2
+  MaxChanges = 2
+  ScenLen = 13
+  SetupFan = 24
   SetupLen = 5
-INVARIANTS Emit TypeOK AllFutureSubscribed AggregatorRuleExact EveryAggregatorCommitteeScheduled
+INVARIANTS Emit TypeOK AllFutureSubscribed AggregatorRuleExact InfoInForceComplete EveryAggregatorCommitteeScheduled
 CHECK_DEADLOCK FALSE
